@@ -95,8 +95,8 @@ def parseLine (views : Views) (ws : List String) : Option (Views × Option TEv) 
     | ["api", n, i, "stop"] => ev (.api (← parseNat n) (← parseNat i) .stop)
     | ["api", n, i, "stopctx", d, w, to, cto] =>
       ev (.api (← parseNat n) (← parseNat i) (.stopctx (← parseBool d) (← parseBool w) (← parseNat to) (← parseNat cto)))
-    | ["api", n, i, "validate"] => ev (.api (← parseNat n) (← parseNat i) .validate)
-    | ["api", n, i, "validate-or-demote"] => ev (.api (← parseNat n) (← parseNat i) .validateOrDemote)
+    | ["api", n, i, "validate", cto] => ev (.api (← parseNat n) (← parseNat i) (.validate (← parseNat cto)))
+    | ["api", n, i, "validate-or-demote", cto] => ev (.api (← parseNat n) (← parseNat i) (.validateOrDemote (← parseNat cto)))
     | "apiret" :: n :: i :: res => ev (.apiRet (← parseNat n) (← parseNat i) (← parseApiRes res))
     | ["status", i, st, il, lid, tok, rev, il2] =>
       ev (.status (← parseNat i) (← parseNat st) (← parseBool il) (← parseNat lid) (← parseNat tok) (← parseNat rev) (← parseBool il2))
